@@ -18,9 +18,10 @@ const Property = "C08"
 // Case: floating inputs Xs (no NaN) converted from S (float32|float64) to the
 // integer type D.
 type Case struct {
-	S  string    `json:"s"`
-	D  string    `json:"d"`
-	Xs []kit.Val `json:"xs"`
+	S   string    `json:"s"`
+	D   string    `json:"d"`
+	Xs  []kit.Val `json:"xs"`
+	Pad int       `json:"pad,omitempty"` // the inputs are repeated cyclically up to this buffer length
 }
 
 var Pairs = convtab.Select("FloatAsSigned", "FloatAsUnsigned")
@@ -68,6 +69,13 @@ func Check(c *Case) (res kit.Result) {
 		}
 		xs[i] = v.F
 	}
+	if c.Pad < 0 || c.Pad > 1<<20 {
+		return kit.Result{}
+	}
+	if c.Pad > len(xs) {
+		res.Class("paddedToLongBuffer")
+	}
+	xs = kit.PadFloats(xs, c.Pad)
 	sort.Float64s(xs)
 	out := make([]int64, len(xs))
 	if p, v := kit.Try(func() { e.NewBlock()(nil, xs, out, nil) }); p {
@@ -104,6 +112,7 @@ func FP(c *Case) uint64 {
 	h.Str(c.S)
 	h.Str(c.D)
 	h.Int(len(c.Xs))
+	h.Int(c.Pad)
 	for _, v := range c.Xs {
 		h.U64(math.Float64bits(v.F))
 	}
@@ -125,6 +134,7 @@ func Bounds(e *convtab.Entry) []float64 {
 func Gen(t *rapid.T) *Case {
 	e := Pairs[rapid.IntRange(0, len(Pairs)-1).Draw(t, "inst")]
 	c := &Case{S: e.S.Name, D: e.D.Name}
+	c.Pad = kit.GenPad(t)
 	n := rapid.IntRange(1, 16).Draw(t, "n")
 	is32 := e.S.Bits == 32
 	for i := 0; i < n; i++ {
